@@ -4,6 +4,7 @@ import (
 	"bytes"
 	"encoding/hex"
 	"fmt"
+	"os"
 
 	"free5gclib/CommonConsumerTestData/UDM/TestGenAuthData"
 	"free5gclib/milenage"
@@ -32,7 +33,7 @@ func init() {
 			return 100000
 		},
 		Batch: 4000,
-		Init:  sec.SelfTest,
+		Init:  c15Init,
 		Run:   runC15,
 	})
 }
@@ -98,7 +99,37 @@ func c15Anchored() (o fw.Outcome) {
 	return
 }
 
+// c15Init: the oracle's self-test, then THE FIRST CALLS OF THIS PROCESS into the library, with all-zero K, OPc, RAND, SQN
+// and AMF - the zero value of anything the library might remember between calls. Judged by the first case of the process.
+var c15FirstCalls string
+
+func c15Init() error {
+	if err := sec.SelfTest(); err != nil {
+		return err
+	}
+	z16, z6, z2 := make([]byte, 16), make([]byte, 6), make([]byte, 2)
+	wRes, wCk, wIk, wAk, wAkS := sec.F2345(z16, z16, z16)
+	wA, wS := sec.F1(z16, z16, z16, z6, z2)
+	res, ck, ik, ak, akS, a, b := make([]byte, 8), make([]byte, 16), make([]byte, 16), make([]byte, 6), make([]byte, 6), make([]byte, 8), make([]byte, 8)
+	if os.Getpid()%2 == 0 {
+		milenage.F2345(z16, z16, z16, res, ck, ik, ak, akS)
+		milenage.F1(z16, z16, z16, z6, z2, a, b)
+	} else {
+		milenage.F1(z16, z16, z16, z6, z2, a, b)
+		milenage.F2345(z16, z16, z16, res, ck, ik, ak, akS)
+	}
+	if !bytes.Equal(res, wRes) || !bytes.Equal(ck, wCk) || !bytes.Equal(ik, wIk) || !bytes.Equal(ak, wAk) || !bytes.Equal(akS, wAkS) || !bytes.Equal(a, wA) || !bytes.Equal(b, wS) {
+		c15FirstCalls = fmt.Sprintf("F1 / F2345 with all-zero K, OPc, RAND, SQN, AMF as the first calls of a process: res=%x ck=%x ik=%x ak=%x ak*=%x f1=%x f1*=%x; TS 35.206 gives %x %x %x %x %x %x %x", res, ck, ik, ak, akS, a, b, wRes, wCk, wIk, wAk, wAkS, wA, wS)
+	}
+	return nil
+}
+
 func runC15(c *fw.Case) (o fw.Outcome) {
+	if c15FirstCalls != "" {
+		o.Nontrivial, o.Digest = true, fw.HashS("first-calls", fmt.Sprint(c.Idx))
+		o.Fail("first-call-of-a-process", "%s", c15FirstCalls)
+		return
+	}
 	if c.Idx == 0 {
 		return c15Anchored()
 	}
